@@ -102,8 +102,12 @@ func VerifC10_Idle() {
 			vpAssume(derr == nil)
 		}
 	}
+	written := vpNowMs()
 	vpSleepMs(vpRange("wait1", 0, 60))
 	touched := vpNowMs()
+	// the access itself keeps a margin from the end of the window that began with the write (native replay sleeps
+	// overshoot; an access that lands on the deadline says nothing)
+	vpAssume(touched-written >= int64(window)+vpMarginMs || touched-written+vpMarginMs < int64(window))
 	if vpBool("touchByGet") {
 		_, err := dm.Get(ctx, "k")
 		// a Get may itself find the key idle; only a successful access refreshes it
